@@ -28,6 +28,10 @@ REJECTED = [
     ('inner_name_then_duplicate_outer_name_probe', '(assert (! (or (! {B} :named inner_) {B}) :named {EXIST}))', '(assert (! true :named inner_))'),
     ('inner_name_then_failing_sibling', '(assert (or (! {B} :named inner_) nosuch_))', '(assert (! true :named inner_))'),
     ('duplicate_name', '(assert (! {B} :named {EXIST}))', None),
+    ('duplicate_name_on_pool_term_0', '(assert (! {P0} :named {EXIST}))', None),       # the terms the history itself asserts, before or after this point
+    ('duplicate_name_on_pool_term_1', '(assert (! {P1} :named {EXIST}))', None),
+    ('duplicate_name_on_pool_term_2', '(assert (! {P2} :named {EXIST}))', None),
+    ('ill_sorted_conjunct_with_pool_term', '(assert (! (and {P0} (+ {B} 1)) :named fresh_))', None),
     ('redeclare_other_sort', '(declare-fun {B} () Real)', None),
     ('redeclare_other_arity', '(declare-fun {B} (Bool) Bool)', None),
     ('declare_unknown_sort', '(declare-fun g_ (Nosort_) Bool)', '(declare-fun g_ () Bool)'),
@@ -110,8 +114,12 @@ class Script:
         return self.head + H.MARK + '\n' + '\n'.join(c + H.MARK for c in cs)
 
 
-def instantiate(tmpl, info, bsym, tsym):
+def instantiate(tmpl, info, bsym, tsym, pool=()):
     if '{T}' in tmpl and tsym is None: return None
+    for i in range(3):
+        if '{P%d}' % i in tmpl:
+            if i >= len(pool): return None
+            tmpl = tmpl.replace('{P%d}' % i, pool[i])
     if '{NEXT}' in tmpl and not info['next']: return None
     names = [n for n, _ in info['scope'] if n]
     if '{EXIST}' in tmpl and not names: return None
@@ -181,9 +189,9 @@ def task(t):
         for pos in range(n + 1):
             info = sc.info[pos]
             for rid, tmpl, probe in REJECTED:
-                r = instantiate(tmpl, info, bsym, tsym)
+                r = instantiate(tmpl, info, bsym, tsym, pool)
                 if r is None: continue
-                pr = instantiate(probe, info, bsym, tsym) if probe else None
+                pr = instantiate(probe, info, bsym, tsym, pool) if probe else None
                 base = base_pieces(w, sc, key, (pos, (pr,)) if pr else None)
                 if base is None: cov['base_crash_or_timeout'] += 1; continue
                 ins = [r] + ([pr] if pr else [])
